@@ -200,6 +200,21 @@ def tasks(tier, prop="C08"):
                     refine_check(spec, exprs(), (2, 3), label, poly=(prop == "C08"))
                 out.append(Task(label, fn, kind="bounded", bound=dict(method=meth, intg=intg, N=N, M=M, grid=g, T=list(Tk), refine=[2, 3]),
                                 replay=dict(harness="task_probe", module="contracts.c08", task=label, tier=tier, tasks_kw=dict(prop=prop))))
+    # generated specifications (contracts/randspec.py): refined samples of an expression of every declared symbol
+    from . import randspec
+    for i in range(120 if tier == "thorough" else 40):
+        kw = randspec.make(i)
+        if kw.get("discrete") or (kw["method"] != "DC" and kw.get("intg") not in ("rk", "expl_euler")):
+            continue
+        label = "%s/R%03d-%s-refine" % (prop, i, kw["method"])
+        def fn(i=i, label=label):
+            kw = randspec.make(i)
+            spec = Spec(**kw)
+            spec.label = label
+            have = [a for a in ("x", "u", "t", "p", "pc", "pcp", "v", "vc", "vcp", "T", "t0") if a != "u" or kw["controls"]]
+            refine_check(spec, [E("sr", 2, tuple(have))], (2,), label, poly=False)
+        out.append(Task(label, fn, kind="bounded", bound=dict(generated=i, refine=[2]),
+                        replay=dict(harness="task_probe", module="contracts.c08", task=label, tier=tier, tasks_kw=dict(prop=prop))))
     if prop == "C08":
         # Gauss-Legendre collocation: numeric horizon (so that the step length cancels in normal form) and tolerance
         for degree in (2, 3) if tier != "thorough" else (1, 2, 3, 4):
